@@ -1931,6 +1931,29 @@ static void run_large_history(const Case& c, int var, int T) {
                              "largeMallocSpecified<u64>"};
   static const char* LA[] = {"allocateInterleaved", "allocateBlocked", "allocateLocal", "allocateFloating", "allocateSpecified"};
   int step                = 0;
+  // one block around 4 GiB (sizes need more than 32 bits once rounded to the 2 MiB page): not paged in by the
+  // library (floating), and the harness touches only its first, middle and last page
+  if (var == 0 && prf((uint64_t)c[F_ASEED], 4242) % 4 == 0) {
+    static const int64_t DELTA[] = {-(int64_t)PAGE - 1, -1, 0, 1, (int64_t)PAGE, (int64_t)PAGE + 1, 1LL << 30};
+    size_t big = (size_t)((4LL << 30) + DELTA[prf((uint64_t)c[F_ASEED], 4243) % 7]);
+    set_ctx("largeMallocFloating(%zu bytes)", big);
+    LAptr huge = largeMallocFloating(big);
+    char* p    = (char*)huge.get();
+    if (!p)
+      failop("null", "largeMallocFloating(%zu) returned nullptr", big);
+    // every page of the block must be mapped: probe the last one before touching it
+    unsigned char vec[1];
+    char* lastpage = (char*)((uintptr_t)(p + big - 1) & ~(uintptr_t)4095);
+    if (mincore(lastpage, 4096, vec) != 0 && errno == ENOMEM)
+      failop("large-size-truncated", "largeMallocFloating(%zu): the page holding the block's last byte (offset %zu) is not mapped", big, (size_t)(lastpage - p));
+    p[0]       = 11;
+    p[big / 2] = 22;
+    p[big - 1] = 33;
+    if (p[0] != 11 || p[big / 2] != 22 || p[big - 1] != 33)
+      failop("large-alias", "largeMallocFloating(%zu): first/middle/last byte do not hold what was written", big);
+    huge.reset();
+    g_boundary = true;
+  }
   for (auto& o : ops) {
     ++step;
     if (o.op == L_ALLOC) {
